@@ -127,6 +127,12 @@ func (x *Exec) Submit(to int) {
 	before := x.Tip
 	x.emit(map[string]any{"op": "Submit", "to": to})
 	cls, ops, detail := x.N.Submit(x.blocksTo(to), nil, 0)
+	if cls == "panic" {
+		// the node died inside AddBlocks while blocks were applied / reverted under its pool
+		x.mismatch("audit:c05:submit:panic", "AddBlocks of the valid chain to node %d panicked with pool v1 %v v2 %v: %s", to, x.p1, x.p2, detail)
+		x.dead = true
+		return
+	}
 	if cls != "ok" {
 		x.mismatch("harness:submit:"+cls, "AddBlocks of the valid chain to node %d returned %s (%s)", to, cls, detail)
 		x.dead = true
@@ -691,6 +697,14 @@ func (x *Exec) Obs() {
 	}
 	x.Res.Count("retention_checks", 1)
 	x.ephExposed = map[types.TransactionID]bool{}
+	if unk1 || unk2 || !alias {
+		// the pool holds something the catalogue does not know (possibly because our own mutation of a
+		// returned transaction reached it): recorded above; this history cannot be driven any further
+		x.dead = true
+		if unk1 || unk2 {
+			return // nothing the specification could name: the recorded execution ends here
+		}
+	}
 	x.emit(map[string]any{"op": "Obs", "p1": p1, "p2": p2, "eph": eph, "full": full, "valid": valid, "mine": mine, "alias": alias})
 	x.note("obs %v %v", p1, p2)
 	x.p1, x.p2 = p1, p2
